@@ -321,6 +321,11 @@ impl ArrayToBytesCodecTraits for ShardingCodec {
                     )?;
                 }
                 unsafe { decoded_shard.set_len(decoded_shard.capacity()) };
+                #[cfg(zarrs_verif)]
+                crate::storage::verif_hooks::emit(
+                    "view.publish",
+                    &[decoded_shard.as_ptr() as u64, decoded_shard.len() as u64],
+                );
                 Ok(ArrayBytes::from(decoded_shard))
             }
         }
